@@ -269,12 +269,83 @@ def device_fault_trace_ok(base_trace, got, j_local):
     return True, ""
 
 
+# ---- a real, stateful output device behind the scheduler (MidiFileOutputDevice / MidiOutputDevice on a fake port) -----------
+DHEADER = ("From Isobar Require Import Base.Prelude Sched.Model Sched.Obs Sched.TimeProofs Sched.MergeProofs Sched.RenameProofs "
+           "IO.MidiBytes IO.FileWire Sched.DevFile.\n"
+           "Definition on_channel (ch : Z) : Z -> bool := fun c => c =? ch.\n"
+           "Definition one_of (mine : list nat) : nat -> bool := fun cb => existsb (Nat.eqb cb) mine.\n"
+           "(* the hypotheses of C17_file_same_as_without_refused / C17_refusal_noninterference for the observed track *)\n"
+           "Definition refusal_instance (i f : nat) (ch : Z) (mine : list nat) (cfg : config) (h : list (op * Z)) : bool :=\n"
+           "  uncoupled (no_fail cfg) && hist_wf i (on_channel ch) (one_of mine) 0 (expand h) && all_ticks_ok cfg tl0 (expand h)\n"
+           "  && all_ticks_ok (no_fail cfg) tl0 (drop_track f 0 (expand h)) && own_clean cfg i tl0 (expand h).\n")
+
+
+def call_valid(c):
+    """MIDI 1.0: data bytes 0..127, channel 0..15 (what mido.Message accepts)"""
+    if c[0] == "cb":
+        return True
+    data, ch = (c[1:3], c[3]) if c[0] in ("on", "ctl") else (c[1:2], c[2])
+    return all(type(x) is int and 0 <= x <= 127 for x in data) and 0 <= ch <= 15
+
+
+def call_bytes(c):
+    k = c[0]
+    if k == "on":
+        return [0x90 | c[3], c[1], c[2]]
+    if k == "off":
+        return [0x80 | c[2], c[1]]            # the release velocity is not fixed by the property
+    if k == "ctl":
+        return [0xB0 | c[3], c[1], c[2]]
+    if k == "pgm":
+        return [0xC0 | c[2], c[1]]
+    return None
+
+
+def same_bytes(want, got):
+    return got[:len(want)] == want and len(got) == (3 if (want[0] & 0xF0) != 0xC0 else 2)
+
+
+def refuse_item(rng, item):
+    """the item with one datum pushed out of the MIDI range (what a line climbing past note 127 / an amplitude above 127 does);
+    None when the item makes no device call"""
+    it = copy.deepcopy(item)
+    big = lambda: rng.choice([128, 130, 140, 200, 255, 1000])
+    if it["k"] == "control":
+        it[rng.choice(["val", "val", "ctl"])] = big()
+        return it
+    if it["k"] == "program":
+        it["prog"] = big()
+        return it
+    if it["k"] != "note" or it.get("note") is None or not it.get("active", True):
+        return None
+    if isinstance(it["note"], list):
+        p = rng.randrange(len(it["note"]))
+        if rng.random() < 0.7 or not isinstance(it["amp"], list):
+            it["note"][p] = big()
+        else:
+            it["amp"][p] = big()
+    elif rng.random() < 0.7:
+        it["note"] = big()
+    else:
+        it["amp"] = big()
+    return it
+
+
+def file_abs(msgs):
+    """[(absolute tick, bytes)] of the saved file without the closing note_off"""
+    out, now = [], 0
+    for d, b in msgs:
+        now += d
+        out.append((now, b))
+    return out[:-1], (out[-1] if out else None)
+
+
 class Plan:
     """collects scenarios to run; remembers the index of each"""
     def __init__(self):
         self.scs, self.fin, self.keys = [], [], {}
 
-    def add(self, key, desc, mode_ignore=None, dev_fail=None, run_mode=False, flips=None, dev_exc=None):
+    def add(self, key, desc, mode_ignore=None, dev_fail=None, run_mode=False, flips=None, dev_exc=None, device=None):
         """mode_ignore: what the Timeline constructor is given; flips: later assignments of the attribute (see insert_flips)"""
         k = json.dumps(key, sort_keys=True, default=str)
         if k in self.keys:
@@ -288,6 +359,8 @@ class Plan:
             sc["config"]["dev_fail"] = dev_fail
             if dev_exc:
                 sc["config"]["dev_fail_exc"] = dev_exc
+        if device:
+            sc["config"]["device"] = device
         if flips:
             sc["ops"] = insert_flips(sc["ops"], flips)
         if run_mode:
@@ -379,6 +452,33 @@ def gen_cases(rng, n_base, per_base):
                 cases.append({"kind": "device", "site": "device", "b": b, "j": j, "ignore": ctor, "ctor": ctor, "flips": flips, "setup": label,
                               "exc": dexc, "run": i_run, "base": i_base, "desc": desc,
                               "minus_of": {f: plan.add(("minus", b, (f,)), without(desc, {f})) for f in range(k)}})
+        # a REAL stateful device behind the scheduler: one datum of the failing track is out of the MIDI range, the device itself
+        # refuses that call; observed in the written file / on the port
+        # (on two bases of three; sites: an early but not the first event, of the track that is first in the scheduling order if
+        # possible - nobody's event precedes its refused call within the tick)
+        for (f, idx) in (sorted(sites, key=lambda s_: (s_[1] == 0 or s_[1] > 3, s_[0] != 0, rng.random())) if b % 3 else []):
+            bad = refuse_item(rng, desc["tracks"][f]["stream"]["items"][idx])
+            if bad is None:
+                continue
+            fd = with_item(desc, f, idx, bad)
+            if rng.random() < 0.7:
+                # the failing track one tick off the others' grid and its previous note released before its next event: its refused
+                # call tends to be the first request of its tick, some time after the last message - where a device that has lost
+                # track of its own time would show it
+                fd["tracks"][f]["d"] = (fd["tracks"][f]["d"] or F(0)) + F(1, desc["tpb"])
+                prev = fd["tracks"][f]["stream"]["items"][idx - 1] if idx >= 1 else None
+                if prev is not None and prev["k"] == "note" and prev.get("note") is not None:
+                    prev["gate"] = [1, 2] if (F(prev["dur"]) / 2 * desc["tpb"]).denominator == 1 else [1, 1]
+            rc = {"kind": "realdev", "site": "device-refusal", "b": b, "f": [f], "idx": [idx], "ignore": True, "ctor": True, "flips": [],
+                  "item": bad, "desc": fd, "probe": plan.add(("probe", b, f, idx, bad), fd)}
+            kinds = ["file"] + (["port"] if 24 % desc["tpb"] == 0 and b % 2 == 0 else [])
+            for dk in kinds:
+                rc[dk] = plan.add(("real", b, f, idx, bad, dk), fd, mode_ignore=True, device=dk)
+                rc[dk + "-"] = plan.add(("real-minus", b, f, dk), without(desc, {f}), mode_ignore=True, device=dk)
+            rc["run"] = rc["file"]
+            rc["file-intolerant"] = plan.add(("real", b, f, idx, bad, "file", False), fd, mode_ignore=False, device="file")
+            cases.append(rc)
+            break
         # two stream faults on different tracks
         if k >= 2 and len(sites) >= 2:
             (f1, x1) = sites[0]
@@ -427,9 +527,127 @@ def escaped_on_tick(sc, r):
     return {idx2tick[i]: (name, mro) for i, name, mro in r.get("escaped", []) if i in idx2tick}
 
 
+def judge_realdev(case, plan, results):
+    """the failing track's call is refused by a real device; judged on what is in the file / what reached the port"""
+    bad = []
+    psc, ids, desc = plan.scs[case["probe"]]
+    P = M.per_tick(psc, results[case["probe"]])                 # the same scenario on the recording stub, which refuses nothing
+    cb_owner = {i: c["owner"] for i, c in enumerate(desc["callbacks"])}
+    chans = [t["chan"] for t in desc["tracks"]]
+    f = case["f"][0]
+    # the first request a MIDI device must refuse: its number among the note_on / control / program_change calls, its tick
+    j, strike, n = None, None, 0
+    for t, (calls, _, _) in enumerate(P):
+        for c in calls:
+            if c[0] in ("on", "ctl", "pgm"):
+                if not call_valid(c) and j is None:
+                    j, strike = n, t
+                n += 1
+    case["j"], case["strikes"] = j, ([(strike, f)] if strike is not None else [])
+    if strike is not None:
+        before = []
+        for c in P[strike][0]:
+            if c[0] in ("on", "ctl", "pgm") and not call_valid(c):
+                break
+            if c[0] != "cb":
+                before.append(c)
+        last_msg = max([t for t in range(strike) if any(c[0] != "cb" for c in P[t][0])] + [-1])
+        # the refused request is the first request of its tick and time has passed since the last message: a device that has
+        # already moved its "last event" mark would misplace everything that follows
+        case["rd_gap"] = (not before) and last_msg >= 0 and any(c[0] != "cb" for t in range(strike, len(P)) for c in P[t][0] if call_valid(c))
+    healthy = [k for k in range(len(chans)) if k != f]
+    for dk in ("file", "port"):
+        if dk not in case:
+            continue
+        r, rm = results[case[dk]], results[case[dk + "-"]]
+        mids = plan.scs[case[dk + "-"]][1]
+        if "exc" in r["res"]:
+            bad.append(("exception-escaped", "ignore_exceptions is set and the %s device refuses a call of the track on channel %d on tick %r, yet tick %d raised (%r)"
+                        % (dk, chans[f], strike, r["res"].index("exc"), r["escaped"][:1])))
+            continue
+        for t, x in enumerate(r["times"]):
+            if abs(x - (t + 1)) > 1e-6:
+                bad.append(("clock", "after %d ticks Timeline.current_time is %r ticks" % (t + 1, x))); break
+        if strike is not None and ids[f] in r["ids"][strike]:
+            bad.append(("not-removed", "track on channel %d: its call is refused by the %s device on tick %d but it is still scheduled after it" % (chans[f], dk, strike)))
+        k = r["device_tpb"] // psc["tpb"] if r.get("device_tpb") else 1
+        if dk == "file":
+            got, closing = file_abs(r["file"])
+            ref, closing_m = file_abs(rm["file"])
+        else:
+            got = [(t, b) for t, bs in enumerate(r["port"]) for b in bs]
+            ref = [(t, b) for t, bs in enumerate(rm["port"]) for b in bs]
+            k = 1
+        for h in healthy:
+            ch = chans[h]
+            mine = [(t, b) for t, b in got if (b[0] & 0x0F) == ch]
+            theirs = [(t, b) for t, b in ref if (b[0] & 0x0F) == ch]
+            if mine != theirs:
+                d = next(x for x in range(max(len(mine), len(theirs))) if x >= len(mine) or x >= len(theirs) or mine[x] != theirs[x])
+                bad.append(("device-state", "%s: message %d of the healthy track on channel %d is %r, %r when the failing track (channel %d, refused on tick %r = device tick %r) "
+                            "is not there (%d of %d messages differ)" % (
+                                "MIDI file (absolute tick, bytes)" if dk == "file" else "MIDI port (tick, bytes)", d, ch,
+                                mine[d] if d < len(mine) else None, theirs[d] if d < len(theirs) else None, chans[f], strike,
+                                None if strike is None else strike * k,
+                                sum(1 for a, b_ in zip(mine, theirs) if a != b_) + abs(len(mine) - len(theirs)), max(len(mine), len(theirs)))))
+                break
+            # and every message sits on the tick on which the track asked for it (the run on the recording stub)
+            want = [(t * k, call_bytes(c)) for t, (calls, _, _) in enumerate(P) for c in calls
+                    if c[0] != "cb" and M.owner_of(c, cb_owner) == ch]
+            if len(want) != len(mine) or any(wt != gt or not same_bytes(wb, gb) for (wt, wb), (gt, gb) in zip(want, mine)):
+                bad.append(("device-position", "%s: the healthy track on channel %d asked for %r, the device holds %r" % (dk, ch, want[:10], mine[:10])))
+                break
+    if "file" in case and not any(k_ == "device-state" for k_, _ in bad) and "exc" not in results[case["file"]]["res"]:
+        closing, closing_m = file_abs(results[case["file"]]["file"])[1], file_abs(results[case["file-"]]["file"])[1]
+        if closing != closing_m:
+            bad.append(("device-state", "the closing message of the file sits at %r, in the file written without the failing track at %r "
+                        "(refusal on tick %r)" % (closing, closing_m, strike)))
+    r = results[case["file-intolerant"]]
+    if strike is not None:
+        if r["res"][strike] != "exc" or "exc" in r["res"][:strike]:
+            bad.append(("not-propagated", "ignore_exceptions is off and the file device refuses a call on tick %d: tick results around it %r"
+                        % (strike, r["res"][max(0, strike - 2):strike + 2])))
+        elif r["escaped"] and r["escaped"][0][1] != "ValueError":
+            bad.append(("other-exception", "mido refuses the data with ValueError, tick %d let %s out" % (strike, r["escaped"][0][1])))
+    elif "exc" in r["res"]:
+        bad.append(("spurious-exception", "no call is refused, yet tick %d raised" % r["res"].index("exc")))
+    return bad
+
+
+def realdev_terms(case, plan, results):
+    """Coq terms: the saved file / the port log is the model's; the hypotheses of the file theorem hold for a healthy track"""
+    psc, ids, desc = plan.scs[case["probe"]]
+    terms = []
+    f = case["f"][0]
+    chans = [t["chan"] for t in desc["tracks"]]
+    for dk in ("file", "port"):
+        if dk not in case:
+            continue
+        fin = copy.deepcopy(plan.fin[case[dk]])
+        fin["config"]["dev_fail"] = case["j"]
+        r = results[case[dk]]
+        if dk == "file":
+            obs = lst(["(%s, %s)" % (zlit(d), zlist(b)) for d, b in r["file"]])
+            terms.append((dk, "sched_file_agrees %s %s %s %s" % (zlit(r["device_tpb"] // fin["tpb"]), S.coq_config(fin), S.coq_history(fin), obs)))
+        else:
+            obs = lst([lst([zlist(b) for b in bs]) for bs in r["port"]])
+            terms.append((dk, "sched_port_agrees %s %s %s" % (S.coq_config(fin), S.coq_history(fin), obs)))
+    healthy = [k for k in range(len(chans)) if k != f]
+    if healthy and case["j"] is not None:
+        h = healthy[case["b"] % len(healthy)]
+        fin = copy.deepcopy(plan.fin[case["file"]])
+        fin["config"]["dev_fail"] = case["j"]
+        mine = [ci for ci, c in enumerate(desc["callbacks"]) if c["owner"] == chans[h]]
+        terms.append(("theorem-instance", "refusal_instance %s %s %s %s %s %s" % (
+            natlit(ids[h]), natlit(ids[f]), zlit(chans[h]), lst([natlit(m) for m in mine]), S.coq_config(fin), S.coq_history(fin))))
+    return terms
+
+
 def judge(case, plan, results, catalogue):
     """returns list of (kind, detail)"""
     bad = []
+    if case["kind"] == "realdev":
+        return judge_realdev(case, plan, results)
     sc, ids, desc = plan.scs[case["run"]]
     r = results[case["run"]]
     cb_owner = {i: c["owner"] for i, c in enumerate(desc["callbacks"])}
@@ -695,7 +913,8 @@ def check(run):
             run.violation({"kind": "driver-error", "site": "Timeline"}, {"scenario": plan.fin[i], "observed": r}, found_input=True)
     for case in cases:
         run.count()
-        need = [case["run"]] + [case[k] for k in ("minus", "base", "none", "ticks") if isinstance(case.get(k), int)] + list(case.get("mark", []))
+        need = [case["run"]] + [case[k] for k in ("minus", "base", "none", "ticks", "probe", "file", "file-", "port", "port-", "file-intolerant")
+                                if isinstance(case.get(k), int)] + list(case.get("mark", []))
         if any(i in flagged for i in need):
             continue
         bad = judge(case, plan, results, catalogue)
@@ -715,6 +934,11 @@ def check(run):
             run.dist("class." + str(site_class(case["item"], catalogue)))
         elif case.get("exc"):
             run.dist("class." + case["exc"])
+        if case["kind"] == "realdev":
+            run.dist("realdev.devices", 2 if "port" in case else 1)
+            if case.get("strikes"):
+                run.dist("realdev.refused-" + {"note": "note_on", "control": "control", "program": "program_change"}[case["item"]["k"]])
+                run.dist("realdev.refused-after-a-gap-first-in-its-tick" if case.get("rd_gap") else "realdev.refused-behind-another-message-of-its-tick-or-at-the-start")
         run.dist("tracks.%d" % len(case["desc"]["tracks"]))
         st = case.get("strikes")
         if st is not None:
@@ -735,15 +959,16 @@ def check(run):
                 "scenario": plan.fin[case["run"]], "observed": detail,
                 "fault": {k: case[k] for k in ("kind", "site", "f", "idx", "j", "cb", "ignore", "ctor", "flips", "item", "exc", "exc_class") if k in case},
                 "strikes (tick, track index)": case.get("strikes"),
-                "reference_scenarios": {k: plan.fin[case[k]] for k in ("minus", "base", "none", "ticks") if isinstance(case.get(k), int)},
+                "reference_scenarios": {k: plan.fin[case[k]] for k in ("minus", "base", "none", "ticks", "probe", "file-", "port", "port-", "file-intolerant") if isinstance(case.get(k), int)},
                 "oracle": "containment / non-interference / clock oracle of harness/c17.py",
-                "trace_head": results[case["run"]].get("obs", [])[:30],
+                "trace_head": results[case["run"]].get("obs", results[case["run"]].get("file", []))[:30],
                 "python": "PYTHONPATH=/repo /venv/bin/python /verif/harness/impl/c17_impl.py <<< '{\"scenarios\": [<scenario>]}'"})
         if len(run.cov["samples"]) < 3 and st:
             run.sample({"fault": {k: case[k] for k in ("kind", "site", "f", "idx", "j", "ignore") if k in case}, "strikes": st,
                         "ops": [o[0] if o[0] != "tick" else o for o in plan.scs[case["run"]][0]["ops"]]})
     # model vs implementation on every tick()-driven run (faulty runs and reference runs), calls and clock
-    tickable = [i for i in range(len(plan.fin)) if not any(o[0] == "run" for o in plan.fin[i]["ops"]) and "driver_error" not in results[i]]
+    tickable = [i for i in range(len(plan.fin)) if not any(o[0] == "run" for o in plan.fin[i]["ops"]) and "driver_error" not in results[i]
+                and not plan.fin[i]["config"].get("device")]
     fin = [plan.fin[i] for i in tickable]
     res = [results[i] for i in tickable]
     bad = r_model_disagreements(run, fin, res, chunk=30)
@@ -765,6 +990,29 @@ def check(run):
             continue
         r_report_disagreement(run, fin[j], res[j], "clock", "Timeline.tick",
                               extra={"broken": "the model's clock after this history differs from Timeline.current_time (%r ticks)" % res[j]["now_ticks"]})
+    # real devices: the file / the port log against the model (scheduler run under dev_fail = the refused call, composed with the
+    # device state machine of IO/FileWire.v), and the hypotheses of the file theorem on the generated histories
+    dterms, dwhere = [], []
+    for case in cases:
+        if case["kind"] != "realdev" or case["run"] in flagged or any(
+                "driver_error" in results[case[k]] for k in ("probe", "file", "file-", "port", "port-") if k in case):
+            continue
+        for what, t in realdev_terms(case, plan, results):
+            dterms.append(t); dwhere.append((case, what))
+    badd = run.coq_failing(DHEADER, dterms, chunk=30)
+    run.cov["device_runs_validated_against_model"] = sum(1 for j, (_, w) in enumerate(dwhere) if w != "theorem-instance" and j not in badd)
+    run.cov["file_theorem_instances_checked"] = sum(1 for j, (_, w) in enumerate(dwhere) if w == "theorem-instance" and j not in badd)
+    run.cov["traces_validated_against_impl"] += run.cov["device_runs_validated_against_model"]
+    for j in badd:
+        case, what = dwhere[j]
+        dk = what if what in ("file", "port") else "file"
+        run.violation({"kind": "correspondence" if what != "theorem-instance" else "file-theorem-instance", "site": "device-refusal", "device": dk}, {
+            "broken": ("correspondence Sched/Model.v + Sched/DevFile.v (IO/FileWire.v) <-> isobar Timeline + %s on this history: the file theorems of "
+                       "Props/C17.v no longer speak about this code" % ("MidiFileOutputDevice" if dk == "file" else "MidiOutputDevice"))
+            if what != "theorem-instance" else "the hypotheses of C17_file_same_as_without_refused (uncoupled, hist_wf, all_ticks_ok, own_clean) on this history",
+            "scenario": plan.fin[case[dk]], "refused call (number among note_on/control/program_change, tick)": [case.get("j"), case.get("strikes")],
+            "observed": results[case[dk]].get(dk), "term": dterms[j][:3000],
+            "python": "PYTHONPATH=/repo /venv/bin/python /verif/harness/impl/c17_impl.py <<< '{\"scenarios\": [<scenario>]}'"}, found_input=False)
     run.cov["rule"] = ("one case = one faulty run judged by the oracle: a C07-style joint scenario (1-6 tracks, distinct channels) with a fault "
                        "injected at a (failing track, event index) of the base scenario - a failing pattern expression of the catalogue (22 "
                        "expressions, 15 exception classes) evaluated inside next(event_stream), an event dict Event() rejects, the j-th device "
